@@ -259,56 +259,92 @@ def runEv (v : Variant) (c : Cfg) (s : Pool) : List Op → Pool × List Ev
 
 /-! ### the write deadline of `sendLoop` (a layer on top of the pool model)
 
-  `sendLoop` refreshes `conn.SetWriteDeadline(now + WriteTimeout)` at the top of an iteration, before `pop`:
-      pinned : `if s.cfg.WriteTimeout-time.Until(writeDeadline) > writeTimeoutAccuracy`
-               — on a fresh connection `writeDeadline` is the zero time, `time.Until` saturates at the minimum Duration and the
-               subtraction overflows to a negative value: the branch is never taken, no deadline is ever armed (`Deadline.never`);
-      fixed  : `if writeDeadline.IsZero() || …` — a deadline is armed whenever `pop` is called (`Deadline.armed`).
+  `sendLoop` keeps a bookkeeping variable `writeDeadline` and refreshes `conn.SetWriteDeadline(now + WriteTimeout)` at the top
+  of an iteration, before `pop`, when the bookkeeping says so:
+      pinned (before 18236950): `if s.cfg.WriteTimeout-time.Until(writeDeadline) > writeTimeoutAccuracy`
+               — with the zero time `time.Until` saturates and the subtraction overflows to a negative value: on a new
+               connection the branch is never taken, no deadline is ever armed (`Deadline.never`);
+      fixed  : `if writeDeadline.IsZero() || …` and `writeDeadline = time.Time{}` after every successful reconnect
+               (`Deadline.armed`);
+      `Deadline.stale` (seeded C31-r3-2): like fixed, but the write-error path closes the connection WITHOUT resetting the
+               bookkeeping and the reset after reconnect is gone: the new connection inherits a `fresh` bookkeeping value and gets
+               no deadline until that value has aged (> writeTimeoutAccuracy).
+  Time is abstracted to the three values of `Book`: `zero` (no deadline recorded), `fresh` (recorded less than
+  writeTimeoutAccuracy ago), `aged`; `OpD.age i` is the passing of writeTimeoutAccuracy.
+  `dl0/dl1` (ghost `armed`): the sender's CURRENT connection really has a write deadline that has not expired.
   An armed deadline is a timer: if the write callback is still blocked when it expires (`OpD.deadline i n`), `WriteTo`
-  returns a timeout error with `n` packets left to resend — the same transition as `wres i (err n)`; sendLoop then counts a
-  write error, closes the connection and reconnects (the spent deadline goes with the connection).
-  `dl0/dl1`: a deadline that has not expired is armed on the sender's connection.
+  returns a timeout error with `n` packets left to resend — the same transition as `wres i (err n)`. After any failed write
+  sendLoop counts a write error, closes the connection and dials a new one, which starts without a deadline.
 -/
 
-inductive Deadline | armed | never
+inductive Deadline | armed | never | stale
+deriving DecidableEq, Repr
+
+inductive Book | zero | fresh | aged
 deriving DecidableEq, Repr
 
 structure PoolD where
   p : Pool := {}
   dl0 : Bool := false
   dl1 : Bool := false
+  bk0 : Book := .zero
+  bk1 : Book := .zero
 deriving DecidableEq, Repr
 
 def getDl (s : PoolD) (i : Bool) : Bool := if i then s.dl1 else s.dl0
 def setDl (s : PoolD) (i : Bool) (x : Bool) : PoolD := if i then { s with dl1 := x } else { s with dl0 := x }
+def getBk (s : PoolD) (i : Bool) : Book := if i then s.bk1 else s.bk0
+def setBk (s : PoolD) (i : Bool) (x : Book) : PoolD := if i then { s with bk1 := x } else { s with bk0 := x }
 
 inductive OpD
   | base (op : Op)
   /-- the armed write deadline of sender `i` expires during a blocked write, `n` packets of the batch are left to resend -/
   | deadline (i : Bool) (n : Nat)
+  /-- writeTimeoutAccuracy (2 s) passes for sender `i`: a `fresh` bookkeeping value becomes `aged` -/
+  | age (i : Bool)
 deriving DecidableEq, Repr
+
+/-- the refresh condition at the top of a sendLoop iteration -/
+def needsRefresh (d : Deadline) (b : Book) : Bool :=
+  match d with
+  | .never => b == .aged                       -- the zero time overflows: no refresh
+  | _ => b == .zero || b == .aged
 
 /-- the top of a sendLoop iteration, just before `pop` -/
 def arm (d : Deadline) (s : PoolD) (i : Bool) : PoolD :=
-  match d with
-  | .armed => setDl s i true
-  | .never => s
+  if needsRefresh d (getBk s i) then setBk (setDl s i true) i .fresh else s
 
 /-- the top of a sendLoop iteration: only `pop` called from the loop position arms -/
 def armFor (d : Deadline) (s : PoolD) : Op → PoolD
   | .pop i => if (getB s.p i).pc == .idle then arm d s i else s
   | _ => s
 
+/-- a write of sender `i` failed: the connection is closed, the next one has no deadline; the bookkeeping is reset
+    (`writeDeadline = time.Time{}` after the reconnect) — except in the seeded variant -/
+def afterError (d : Deadline) (s : PoolD) (i : Bool) : PoolD :=
+  match d with
+  | .stale => setDl s i false
+  | _ => setBk (setDl s i false) i .zero
+
+/-- `some i`: the step was a write of sender `i` that returned an error to `pop` -/
+def failedWrite : Op → List Ev → Option Bool
+  | .wres i (.err _), evs => if evs == [.ret i true] then some i else none
+  | _, _ => none
+
 /-- the armed deadline of sender `i` can expire now: it is blocked in the write callback (`n` = packets left to resend) -/
 def deadlineEnabled (s : PoolD) (i : Bool) (n : Nat) : Bool :=
   getDl s i && (getB s.p i).pc == .writing && decide (n < (batch (getB s.p i)).length)
 
 def stepD (d : Deadline) (v : Variant) (c : Cfg) (s : PoolD) : OpD → PoolD × List Ev
-  | .base op => ({ armFor d s op with p := (step v c s.p op).1 }, (step v c s.p op).2)
+  | .base op =>
+    match failedWrite op (step v c s.p op).2 with
+    | some i => ({ afterError d s i with p := (step v c s.p op).1 }, (step v c s.p op).2)
+    | none => ({ armFor d s op with p := (step v c s.p op).1 }, (step v c s.p op).2)
   | .deadline i n =>
     if deadlineEnabled s i n then
-      ({ setDl s i false with p := (step v c s.p (.wres i (.err n))).1 }, (step v c s.p (.wres i (.err n))).2)
+      ({ afterError d s i with p := (step v c s.p (.wres i (.err n))).1 }, (step v c s.p (.wres i (.err n))).2)
     else (s, [])
+  | .age i => (if getBk s i == .fresh then setBk s i .aged else s, [])
 
 def runD (d : Deadline) (v : Variant) (c : Cfg) (s : PoolD) : List OpD → PoolD
   | [] => s
